@@ -1,0 +1,38 @@
+// Copyright ©2014 The bíogo Authors. All rights reserved.
+// Use of this source code is governed by a BSD-style
+// license that can be found in the LICENSE file.
+
+//go:build verif
+
+// Contracts for the hvc verifier (see /verif/DESIGN.md). This file contains
+// comments only; it adds nothing to the package.
+package tabix
+
+// Reading a tabix index (C11): whatever the stream delivers, ReadFrom returns
+// an index or an error. binary.Read is modelled by the verifier (arbitrary
+// value of the target type); the index body is read by internal.ReadIndex,
+// which is under its own contract.
+//@ trusted func ext:fmt.Errorf
+//@   ensures result != nil
+//@ trusted func ext:errors.New
+//@   ensures result != nil
+//@ trusted func ext:io.ReadFull
+//@   modifies buf[:], object(r).err
+//@   ensures 0 <= n && n <= len(buf)
+//@   ensures err == nil <==> n == len(buf)
+//@ trusted func ext:strings.Split
+//@   ensures len(result) >= 1
+
+//@ func readTabixHeader
+//@   mode bv
+//@   props C11
+//@   decoder
+//@   requires idx != nil
+//@   modifies all(idx)
+
+//@ func ReadFrom
+//@   mode bv
+//@   props C11
+//@   decoder
+//@   loop 0 invariant @idx 0 <= i && i <= len(idx.refNames) && idx.nameMap != nil && fresh(idx.nameMap)
+//@   loop 0 decreases len(idx.refNames) - i
